@@ -6,8 +6,9 @@
 //! * `v <token counts|->` `validate_peers`; output `ok` | `err empty-peers` | `err empty-token-lists`
 //! * `s <options>`        `strategy_from_string_map`; output `simple rf` | `nts dc=rf,..` | `local` | `other name n` | `err ..`
 //! * `m <rows> <options|options|..> <keyspace index> <dc|-> <token>`  rows + keyspace rows -> `ClusterState` (hook
-//!   `cluster_state_general`, a keyspace whose options do not parse is a failed fetch) -> the replica set of that
-//!   keyspace's strategy; output `dummies=<id:token,..|-> len=.. iter=.. ..` | `invalid <why>`.
+//!   `cluster_state_general`) -> the replica set of that keyspace's strategy; output
+//!   `dummies=<id:token,..|-> len=.. iter=.. ..` | `invalid <empty-peers|empty-token-lists|strategy>` (a refused fetch:
+//!   `validate_peers` failed, or some replication map is unreadable - that fails the WHOLE fetch in `query_keyspaces`).
 //!
 //! text := lowercase hex of the ASCII bytes, `-` = empty string; tokens := `null` | `[]` | text,text,..;
 //! row := host:dc:rack:tokens (decimal or `-` = null); options := text=text,.. | `-`.
@@ -155,7 +156,7 @@ fn oracle_tokens(t: &Option<Vec<String>>) -> Owned {
 }
 
 /// The strategy a keyspace row states; `None` = the row is not understood (the keyspace's fetch fails).
-fn oracle_strategy(m: &[(String, String)]) -> Option<Strat> {
+pub(crate) fn oracle_strategy(m: &[(String, String)]) -> Option<Strat> {
     let class = &m.iter().find(|e| e.0 == "class")?.1;
     let short = class.strip_prefix("org.apache.cassandra.locator.").unwrap_or(class);
     match short {
@@ -165,7 +166,8 @@ fn oracle_strategy(m: &[(String, String)]) -> Option<Strat> {
             for (i, (k, val)) in m.iter().filter(|e| e.0 != "class").enumerate() {
                 let rf = oracle_usize(val)?;
                 // datacenter names other than dc<n> match no ring datacenter
-                let dc = k.strip_prefix("dc").and_then(|n| if n.bytes().all(|b| b.is_ascii_digit()) && !n.is_empty() && !n.starts_with('+') { n.parse::<u32>().ok() } else { None });
+                // only the exact spelling dc<canonical decimal> names a ring datacenter ("dc01", "dc1_0" are other names)
+                let dc = k.strip_prefix("dc").and_then(|n| n.parse::<u32>().ok().filter(|v| v.to_string() == n && *v < 1_000_000));
                 v.push((dc.unwrap_or(1_000_000 + i as u32), rf));
             }
             Some(Strat::Nts(v))
@@ -408,18 +410,23 @@ fn run_rows(w: &[&str], ctx: &mut Ctx) -> String {
     if !reading.iter().any(|p| !p.tokens.is_empty()) {
         ctx.fail("a fetch in which nobody owns a token was accepted");
     }
-    // keyspace rows -> strategies; an unreadable row is a failed keyspace fetch
+    // keyspace rows -> strategies; ONE unreadable replication map fails the whole fetch (`query_keyspaces` propagates
+    // `KeyspacesMetadataError::Strategy` as a `MetadataError`): nothing is published
     let mut specs: Vec<KeyspaceSpec> = Vec::new();
-    let mut failed: Vec<String> = Vec::new();
+    let failed: Vec<String> = Vec::new();
     let mut stated: Vec<Option<Strat>> = Vec::new();
+    let mut refused = false;
     for (i, m) in opts.iter().enumerate() {
         let r = strategy_from_options(m.iter().cloned().collect::<HashMap<_, _>>());
         judge_strategy(m, &r, ctx);
         stated.push(oracle_strategy(m));
         match r {
             Ok(s) => specs.push(KeyspaceSpec { name: format!("k{}", i), strategy: s }),
-            Err(_) => failed.push(format!("k{}", i)),
+            Err(_) => refused = true,
         }
+    }
+    if refused {
+        return "invalid strategy".into();
     }
     // peers -> cluster state, through ClusterState::new
     let nodes: Vec<NodeSpec> = peers
@@ -476,11 +483,11 @@ fn gen_tokens(rng: &mut Rng, used: &mut Vec<i64>) -> Option<Vec<String>> {
     }
 }
 
-fn gen_options(rng: &mut Rng, dcs: &[u32]) -> Vec<(String, String)> {
+fn gen_options(rng: &mut Rng, dcs: &[u32], sloppy: bool) -> Vec<(String, String)> {
     let long = rng.chance(1, 2);
     let q = |s: &str| if long { format!("org.apache.cassandra.locator.{}", s) } else { s.to_owned() };
     let num = |rng: &mut Rng| -> String {
-        match rng.below(12) {
+        match if sloppy { rng.below(12) } else { *rng.pick(&[3u64, 4, 6, 7, 8, 9, 10, 11]) } {
             0 => "x".into(),
             1 => "".into(),
             2 => "-1".into(),
@@ -491,13 +498,13 @@ fn gen_options(rng: &mut Rng, dcs: &[u32]) -> Vec<(String, String)> {
         }
     };
     let mut m: Vec<(String, String)> = Vec::new();
-    match rng.below(14) {
+    match if sloppy { rng.below(14) } else { 1 + rng.below(13) } {
         0 => {
             m.push(("replication_factor".into(), num(rng))); // no class
         }
         1 | 2 | 3 => {
             m.push(("class".into(), q("SimpleStrategy")));
-            if !rng.chance(1, 8) {
+            if !sloppy || !rng.chance(1, 8) {
                 m.push(("replication_factor".into(), num(rng)));
             }
         }
@@ -514,7 +521,7 @@ fn gen_options(rng: &mut Rng, dcs: &[u32]) -> Vec<(String, String)> {
                 }
             }
             if rng.chance(1, 6) {
-                m.push(((*rng.pick(&["eu-west", "DC1", "dc", "replication_factor"])).to_owned(), num(rng)));
+                m.push(((*rng.pick(&["eu-west", "DC1", "dc", "replication_factor", "dc01", "dc1_0", "dc+1", "dc00"])).to_owned(), num(rng)));
             }
         }
     }
@@ -562,7 +569,7 @@ pub fn generate(rng: &mut Rng, tier: Tier, emit: &mut dyn FnMut(String)) {
     // option maps
     for _ in 0..1500 * scale {
         let dcs: Vec<u32> = (0..rng.range(0, 3) as u32).collect();
-        emit(format!("s {}", fmt_options(&gen_options(rng, &dcs))));
+        emit(format!("s {}", fmt_options(&gen_options(rng, &dcs, true))));
     }
     // rows + keyspace rows -> cluster state
     for _ in 0..700 * scale {
@@ -580,7 +587,8 @@ pub fn generate(rng: &mut Rng, tier: Tier, emit: &mut dyn FnMut(String)) {
         if rng.chance(1, 3) {
             rng.shuffle(&mut rows);
         }
-        let ks: Vec<Vec<(String, String)>> = (0..rng.range(1, 3)).map(|_| gen_options(rng, &dcs)).collect();
+        let sloppy = rng.chance(1, 6);
+        let ks: Vec<Vec<(String, String)>> = (0..rng.range(1, 3)).map(|_| gen_options(rng, &dcs, sloppy)).collect();
         let rows_s = if rows.is_empty() { "-".to_owned() } else { rows.iter().map(fmt_row).collect::<Vec<_>>().join(";") };
         let ks_s = ks.iter().map(|m| fmt_options(m)).collect::<Vec<_>>().join("|");
         let mut toks: Vec<i64> = used.iter().flat_map(|t| [*t, t - 1, t + 1]).collect();
